@@ -50,7 +50,7 @@ ROLES = {
     'noop': [':r', ':r-of', ':r-of-of', ':q~1'],
     'amr': [':ARG0', ':ARG0-of', ':consist-of', ':consist-of-of',
             ':mod-of~2'],
-    'custom': [':r', ':r-of', ':r-of-of', ':q1-of~3'],
+    'custom': [':r-of', ':s-of', ':s-of-of', ':q1-of~3'],
 }
 ATOMS = ['a', 'b', 'x', None, 'b~e.4', '"a"']
 CONCEPTS = [NO_CONCEPT, 'x', None, 'b', 'y~5']
